@@ -53,12 +53,13 @@ class World:
         self.kind = kind
         # the two primaries have DIFFERENT step sizes but give series of the same length (5 time points): whatever a hedger or a
         # feature remembers about a derivative must not be keyed on shapes alone
-        self.prim = {"p1": BrownianStock(dt=0.25, cost=1e-3, dtype=dtype), "p2": HestonStock(dt=0.125, cost=2e-3, dtype=dtype)}
-        self.deriv = {"d1": EuropeanOption(self.prim["p1"], maturity=1.0), "d2": LookbackOption(self.prim["p1"], maturity=1.0, strike=1.1),
-                      "d3": EuropeanOption(self.prim["p2"], call=False, maturity=0.5)}
-        self.deriv["d2"].list(lambda d: d.ul().spot, cost=5e-4)         # the pricer hands out the buffer itself
-        self.deriv["d1"].list(lambda d: d.ul().spot * 0.5 + 0.1, cost=1e-4)
-        self.deriv["d3"].list(lambda d: (d.ul().spot - 1.0).abs() + 0.05, cost=2e-4)
+        self.costs = {"p1": 1e-3, "p2": 2e-3}                            # the CONFIGURATION of the market: everything a freshly
+        self.strikes = {"d1": 1.0, "d2": 1.1, "d3": 1.0}                  # built copy of it needs (fresh_world)
+        self.nclauses: Dict[str, int] = {"d1": 0, "d2": 0, "d3": 0}
+        self.nlist: Dict[str, int] = {"d1": 0, "d2": 0, "d3": 0}
+        self.nstrike: Dict[str, int] = {"d1": 0, "d2": 0, "d3": 0}
+        self.ncost: Dict[str, int] = {"p1": 0, "p2": 0}
+        self.build_market()
         self.bound: Dict[str, Any] = {}                                   # feature objects that stay bound between operations
         self.base: Dict[str, Any] = {}                                    # one unbound feature object per kind ...
         self.handles: Dict[Any, Any] = {}                                 # ... and the handles f.of(d) obtained from it, kept per derivative
@@ -69,8 +70,45 @@ class World:
         self.vmap: Dict[str, int] = {}
         self.rmap: Dict[str, int] = {}
         self.pmap: Dict[str, int] = {}
-        self.nclauses: Dict[str, int] = {"d1": 0, "d2": 0, "d3": 0}
-        self.nlist: Dict[str, int] = {"d1": 0, "d2": 0, "d3": 0}
+
+    CLAUSES = [lambda dd, p: p * 2 + 1, lambda dd, p: p.clamp(max=1.25)]
+    PRICERS = {"d1": [lambda d: d.ul().spot * 0.5 + 0.1, lambda d: d.ul().spot * 0.25 + 0.3, lambda d: (d.ul().spot - 0.5).abs() + 0.2],
+               "d2": [lambda d: d.ul().spot, lambda d: d.ul().spot * 0.25 + 0.3, lambda d: (d.ul().spot - 0.5).abs() + 0.2],   # [0] hands out the buffer itself
+               "d3": [lambda d: (d.ul().spot - 1.0).abs() + 0.05, lambda d: d.ul().spot * 0.25 + 0.3, lambda d: (d.ul().spot - 0.5).abs() + 0.2]}
+    LIST_COST = {"d1": 1e-4, "d2": 5e-4, "d3": 2e-4}
+
+    def build_market(self) -> None:
+        """Instruments for the current configuration (costs, strikes, clauses, listings), without simulated data.  The two
+        primaries have DIFFERENT step sizes but give series of the same length (5 time points): whatever a hedger or a feature
+        remembers about a derivative must not be keyed on shapes alone."""
+        from pfhedge.instruments import BrownianStock, EuropeanOption, HestonStock, LookbackOption
+        dtype = torch.float64
+        self.prim = {"p1": BrownianStock(dt=0.25, cost=self.costs["p1"], dtype=dtype), "p2": HestonStock(dt=0.125, cost=self.costs["p2"], dtype=dtype)}
+        self.deriv = {"d1": EuropeanOption(self.prim["p1"], maturity=1.0, strike=self.strikes["d1"]),
+                      "d2": LookbackOption(self.prim["p1"], maturity=1.0, strike=self.strikes["d2"]),
+                      "d3": EuropeanOption(self.prim["p2"], call=False, maturity=0.5, strike=self.strikes["d3"])}
+        for d, dv in self.deriv.items():
+            for k in range(self.nclauses[d]):
+                dv.add_clause(f"clause{k}", self.CLAUSES[k])
+            dv.list(self.PRICERS[d][self.nlist[d]], cost=self.LIST_COST[d])
+
+    def fresh_world(self, h: str) -> "World":
+        """A freshly built market with the CURRENT configuration and copies of the current simulated series, and a freshly built
+        hedger with the parameters of hedger h: the reference every long-lived object is compared with."""
+        w = World.__new__(World)
+        w.kind = self.kind
+        w.costs, w.strikes = dict(self.costs), dict(self.strikes)
+        w.nclauses, w.nlist, w.nstrike, w.ncost = dict(self.nclauses), dict(self.nlist), dict(self.nstrike), dict(self.ncost)
+        w.build_market()
+        for pn, prim in self.prim.items():
+            for name, b in prim.named_buffers():
+                w.prim[pn].register_buffer(name, b.detach().clone())
+        w.bound, w.base, w.handles = {}, {}, {}
+        w.seed, w.vmap, w.rmap, w.pmap = self.seed, {}, {}, {}
+        w.hedgers = {}
+        w._building_fresh = False
+        w.hedgers["_fresh"] = w.clone_hedger(self.hedgers[h])
+        return w
 
     # ---------------------------------------------------------------- hedgers
     def make_hedger(self):
@@ -179,15 +217,28 @@ class World:
             return None
         if op == "AddClause":
             k = self.nclauses[d]
-            dv.add_clause(f"clause{k}", (lambda dd, p: p * 2 + 1) if k == 0 else (lambda dd, p: p.clamp(max=1.25)))
+            dv.add_clause(f"clause{k}", self.CLAUSES[k])
             self.nclauses[d] = k + 1
             return None
         if op == "Relist":                 # delist() and list() again with another pricer: the listed price changes, nothing else
             k = self.nlist[d]
             cost = dv.cost
             dv.delist()
-            dv.list((lambda dd: dd.ul().spot * 0.25 + 0.3) if k == 0 else (lambda dd: (dd.ul().spot - 0.5).abs() + 0.2), cost=cost)
+            dv.list(self.PRICERS[d][k + 1], cost=cost)
             self.nlist[d] = k + 1
+            return None
+        if op == "Restrike":               # the contract terms are edited through the public attribute
+            k = self.nstrike[d]
+            self.strikes[d] = [1.05, 0.9][k] if d != "d2" else [1.0, 1.2][k]
+            dv.strike = self.strikes[d]
+            self.nstrike[d] = k + 1
+            return None
+        if op == "SetCost":                # the underlier's proportional cost rate is changed through the public attribute
+            ul = "p2" if d == "d3" else "p1"
+            k = self.ncost[ul]
+            self.costs[ul] = [4e-3, 0.0][k]
+            self.prim[ul].cost = self.costs[ul]
+            self.ncost[ul] = k + 1
             return None
         if op == "Fit":
             params = self.params_of(h)
@@ -266,6 +317,9 @@ def replay_history(ctx: Ctx, hist: List[Dict[str, Any]], kind: str, seed: int) -
             if mid != before:
                 ctx.violation(f"purity:{op}", f"{op} changed a simulated buffer (hedger kind {kind})", {**detail, "before": before, "after": mid, "by": "fresh hedger"})
                 return
+        if op == "Restrike" and d == "d1" and kind in ("whalley-wilmott", "black-scholes"):
+            ctx.skip("re-striking the derivative a Black-Scholes / Whalley-Wilmott model was built from (the model keeps the strike of its construction): rest of the interleaving not judged")
+            return
         pbefore = w.pversions()
         try:
             res = w.run(op, h, d, n)
@@ -278,8 +332,8 @@ def replay_history(ctx: Ctx, hist: List[Dict[str, Any]], kind: str, seed: int) -
         if op == "AddClause" and after != before:
             ctx.violation("purity:AddClause", "add_clause changed a simulated buffer", detail)
             return
-        if op == "Relist" and after != before:
-            ctx.violation("purity:Relist", "re-listing a derivative changed a simulated buffer", detail)
+        if op in ("Relist", "Restrike", "SetCost") and after != before:
+            ctx.violation(f"purity:{op}", f"{op} changed a simulated buffer", detail)
             return
         if op != "Fit" and pafter != pbefore:
             ctx.violation(f"params-changed:{op}", f"{op} changed model parameters (only fit() may)", detail)
@@ -305,6 +359,16 @@ def replay_history(ctx: Ctx, hist: List[Dict[str, Any]], kind: str, seed: int) -
             if w.npaths() != ev["npaths"]:
                 ctx.violation(f"simulate:{op}:npaths", f"{op}(n_paths={n}) left buffers with {w.npaths()} paths", detail)
                 return
+        if op in ("Payoff", "ListedSpot", "ComputeHedge", "ComputePortfolio", "ComputePL") and not (
+                w.kind in ("whalley-wilmott", "black-scholes") and w.nstrike["d1"] > 0):       # (these models copy d1's strike when they are built)
+            # the same operation in a FRESHLY BUILT market with the current configuration and the current series
+            hh = h if h != "-" else "h1"
+            ref = w.fresh_world(hh).run(op, "_fresh", d, n)
+            ctx.count(n=1)
+            if res.shape != ref.shape or not torch.equal(res.nan_to_num(), ref.nan_to_num()):
+                ctx.violation(f"history:{op}:fresh-market", f"{op} on long-lived objects differs from the same operation on a freshly built market and hedger with the same "
+                              f"configuration, parameters and simulated series (hedger kind {kind})", {**detail, "max_abs_diff": float((res - ref).abs().max()) if res.shape == ref.shape else None})
+                return
         if fresh_res is not None and (res.shape != fresh_res.shape or not torch.equal(res.nan_to_num(), fresh_res.nan_to_num())):
             ctx.violation(f"history:{op}", f"{op} differs from a fresh hedger with the same parameters on the same buffers (hedger kind {kind})",
                           {**detail, "max_abs_diff": float((res - fresh_res).abs().max()) if res.shape == fresh_res.shape else None})
@@ -327,11 +391,15 @@ def record_sessions(seed: int, n_traces: int, length: int) -> List[Dict[str, Any
                 op = rng.choice(["Simulate", "ComputeLoss", "Price"])
             else:
                 op = rng.choice(["Simulate", "Payoff", "Features", "ListedSpot", "ComputeHedge", "ComputeHedge", "ComputePortfolio", "ComputePL", "ComputePL", "ComputeLoss", "Price",
-                                 "AddClause", "Fit", "Relist"])
+                                 "AddClause", "Fit", "Relist", "Restrike", "SetCost"])
             if op == "AddClause" and w.nclauses[d] >= 2:
                 op = "Payoff"
             if op == "Relist" and w.nlist[d] >= 2:
                 op = "ListedSpot"
+            if op == "Restrike" and (w.nstrike[d] >= 2 or (kind in ("whalley-wilmott", "black-scholes") and d == "d1")):
+                op = "Payoff"
+            if op == "SetCost" and w.ncost[ul] >= 2:
+                op = "ComputePL"
             if op == "Fit" and kind == "shared-module-prev":
                 op = "ComputePL"             # the two hedgers of this kind share trainable parameters BY CONSTRUCTION: fit() of one is fit() of both
             h = rng.choice(["h1", "h1", "h2"]) if op.startswith("Compute") or op in ("Price", "Fit") else "-"
@@ -348,8 +416,8 @@ def record_sessions(seed: int, n_traces: int, length: int) -> List[Dict[str, Any
                 break                       # a step that left the parameters bit-identical (zero gradient): end this trace here
             if op in ("Simulate", "ComputeLoss", "Price", "Fit"):
                 simulated.add(ul)
-            events.append({"op": op, "h": h, "d": d, "n": n, "ver": w.versions(), "npaths": w.npaths(), "cv": w.nclauses[d], "lv": w.nlist[d], "pvs": w.pversions(),
-                           "res": 0 if (res is None or op in ("ComputeLoss", "Price", "Fit", "AddClause", "Relist")) else w.rid(res)})
+            events.append({"op": op, "h": h, "d": d, "n": n, "ver": w.versions(), "npaths": w.npaths(), "cv": w.nclauses[d], "lv": w.nlist[d], "kv": w.nstrike[d], "uv": w.ncost[ul], "pvs": w.pversions(),
+                           "res": 0 if (res is None or op in ("ComputeLoss", "Price", "Fit", "AddClause", "Relist", "Restrike", "SetCost")) else w.rid(res)})
         traces.append({"kind": kind, "events": events})
     return traces
 
@@ -562,7 +630,7 @@ def bound_handles(ctx: Ctx) -> None:
 def check(ctx: Ctx) -> None:
     warnings.filterwarnings("ignore")
     ex = ctx.tlc("MC_Session", "MC_Session_q_d3.cfg" if ctx.tier == "quick" else "MC_Session_t_d4.cfg", workers=8)
-    for a in ("Simulate", "Read", "Compute", "SimCompute", "AddClause", "Fit", "Relist"):
+    for a in ("Simulate", "Read", "Compute", "SimCompute", "AddClause", "Fit", "Relist", "Restrike", "SetCost"):
         if ex.actions.get(a, [0, 0])[1] == 0:
             raise MachineryError(f"Session.tla: action {a} never taken")
     sim = ctx.tlc("MC_Session", "MC_Session_sim.cfg", workers=4, simulate=f"num={150 if ctx.tier == 'quick' else 1500}", depth=10, seed=ctx.seed + 5)
@@ -619,7 +687,7 @@ def check(ctx: Ctx) -> None:
         for e_ in t_["events"]:
             mix[e_["op"]] = mix.get(e_["op"], 0) + 1
     ctx.sections["recorded_session_operations"] = mix
-    if sum(1 for k_ in mix if k_ in READ_ONLY) < 4 or not mix.get("Fit") or not mix.get("AddClause") or not mix.get("Relist"):
+    if sum(1 for k_ in mix if k_ in READ_ONLY) < 4 or not mix.get("Fit") or not mix.get("AddClause") or not mix.get("Relist") or not mix.get("Restrike") or not mix.get("SetCost"):
         raise MachineryError(f"recorded sessions do not exercise the session machine: {mix}")
     for i, reached, need in validate(ctx, traces, "recorded"):
         ctx.traces_validated += 1
@@ -655,7 +723,7 @@ def check(ctx: Ctx) -> None:
         seen_keys: Dict[str, int] = {}
         for i, e in enumerate(cand["events"]):
             if e["op"] in READ_ONLY:
-                k2 = json.dumps([e["op"], e["d"], e["ver"], e["cv"], e["lv"], e["pv"]])
+                k2 = json.dumps([e["op"], e["d"], e["ver"], e["cv"], e["lv"], e["kv"], e["uv"], e["pv"]])
                 if k2 in seen_keys:
                     e["res"] += 77                                    # same key, different result
                     bad_hist, line2 = cand, i
